@@ -13,6 +13,7 @@
 //!
 //! Modes: `lv-harness run` reads program lines from stdin.
 
+mod extras;
 mod interp;
 mod prog;
 mod stdref;
